@@ -46,6 +46,10 @@ def _impl_case(case):
                 m.time = 'soon'
             except (ValueError, TypeError):
                 pass
+            if t == 'sysex' and len(d['data']) < 2000:
+                # the same payload assigned again from the other containers a caller has it in: still the same message
+                for conv in (tuple, bytes, bytearray, list):
+                    m.data = conv(d['data'])
         bs = m.bytes()
         enc_line = '%s|%d|%s|1' % (' '.join(str(int(b)) for b in bs), len(m), m.hex())
         m2 = mido.Message.from_bytes(bs, time=time)
